@@ -34,7 +34,8 @@ HOSTILE = ['alpha', 'beta & gamma', '"q"', "it's", '1 < 2', 'é中', 'tab\there'
 CFG = gdoc.Cfg(words=st.sampled_from(HOSTILE + ['plain', 'words', 'here']), inlines=['t', 'em', 'st', 'code', 'link', 'img', 'fnref', 'cite', 'gloss', 'email'],
                blocks=['para', 'atx', 'setext', 'hr', 'fence', 'quote', 'list', 'table', 'figure', 'toc'],
                images=st.sampled_from(IMAGES), titles=st.sampled_from([None, None, 'Title here', 'T & "q"']),
-               meta=st.lists(st.tuples(st.sampled_from(['Title', 'Author', 'css', 'Date', 'Keywords']), st.sampled_from(['A & B "t" <x>', 'style.css', 'Jane', '2020-01-01', 'é中'])),
+               meta=st.lists(st.one_of(st.tuples(st.sampled_from(['Title', 'Author', 'css', 'Date', 'Keywords']), st.sampled_from(['A & B "t" <x>', 'style.css', 'Jane', '2020-01-01', 'é中'])),
+                                        st.tuples(st.sampled_from(['ODF Header Level', 'Base Header Level', 'language']), st.sampled_from(['2', '3', '2', 'de']))),
                              max_size=3, unique_by=lambda t: t[0]).map(lambda m: [['css', 'style.css'] if k == 'css' else [k, v] for k, v in m] or None))
 
 
